@@ -94,6 +94,8 @@ pub struct Mon {
     pub enable_c05: bool,
     /// C06 credit monitor (MAX_DATA / MAX_STREAM_DATA vs. application consumption)
     pub enable_credit: bool,
+    /// every Incoming an endpoint produced: (endpoint, remote, validated, may_retry)
+    pub incoming_log: Vec<(usize, SocketAddr, bool, bool)>,
     /// honest-peer world: any transport error between the peers is itself a finding
     pub honest: bool,
     pub rebinds: u32,
@@ -179,6 +181,7 @@ impl Mon {
             enable_c12: true,
             enable_c05: true,
             enable_credit: false,
+            incoming_log: vec![],
             honest: true,
             rebinds: 0,
             dgram_arrivals: BTreeMap::new(),
@@ -413,7 +416,8 @@ impl Mon {
         }
     }
 
-    pub fn on_incoming(&mut self, _ei: usize, _inc: &Incoming) {
+    pub fn on_incoming(&mut self, ei: usize, inc: &Incoming) {
+        self.incoming_log.push((ei, inc.remote_address(), inc.remote_address_validated(), inc.may_retry()));
         self.cnt.inc("ep.incoming");
     }
 
